@@ -6,18 +6,21 @@ Driver handler for C15 (no temporary files left behind).
 namespace BV.Driver
 open BV
 
+/-- an optional trailing token -/
+def opt' {α : Type} (p : Parser α) : Parser (Option α) := fun s => match p s with | some (a, r) => some (some a, r) | none => some (none, s)
+
 def handleC15 (inp obs : List String) : Verdict :=
   let parsed := (do
     let tmp ← nat; let n ← nat; let c ← nat; let comp ← opt nat
-    let fail ← nat; let failAt ← nat; let consume ← nat; let order ← nat; let obsAt ← nat
+    let fail ← nat; let failAt ← nat; let consume ← nat; let order ← nat; let obsAt ← nat; let _builderOrder ← opt' nat
     pure (tmp, n, c, comp, fail, failAt, consume, order, obsAt)).run inp
   let pobs := (do
     let t ← peek?
     if t == some "abort" || t == some "panic" then pure none else do
       let base ← nat; let newDirs ← nat; let newFiles ← nat
       let taken ← bool; let top ← nat; let inside ← nat; let fds ← nat
-      let afterNew ← nat; let afterMissing ← nat; let otherNew ← nat; let result ← nat; let yielded ← nat
-      pure (some (base, newDirs, newFiles, taken, top, inside, fds, afterNew, afterMissing, otherNew, result, yielded))).run obs
+      let afterNew ← nat; let afterMissing ← nat; let otherNew ← nat; let result ← nat; let yielded ← nat; let otherAlive ← nat
+      pure (some (base, newDirs, newFiles, taken, top, inside, fds, afterNew, afterMissing, otherNew, result, yielded, otherAlive))).run obs
   match parsed, pobs with
   | some ((tmp, n, c, comp, fail, failAt, consume, order, obsAt), _), some (o, _) =>
     let cm := max c 1
@@ -30,12 +33,13 @@ def handleC15 (inp obs : List String) : Verdict :=
     let classes := classes ++ (match obs with | _ => [])
     match o with
     | none => { kind := "specfail", nontrivial := true, classes, detail := "the lifetime script aborted or panicked outside sort_by" }
-    | some (_base, newDirs, newFiles, taken, top, inside, fds, afterNew, afterMissing, otherNew, result, yielded) =>
+    | some (_base, newDirs, newFiles, taken, top, inside, fds, afterNew, afterMissing, otherNew, result, yielded, otherAlive) =>
       let nontrivial := taken && chunksAtObs ≥ 1
       -- the property
       let specFail : Option String :=
         if afterNew != 0 || afterMissing != 0 then some s!"after the sorter and the iterator were dropped the configured directory has {afterNew} new and {afterMissing} missing entries"
-        else if otherNew != 0 then some s!"{otherNew} entries were created outside the configured directory"
+        else if otherNew != 0 then some s!"{otherNew} entries were created outside the configured directory and are still there after the drops"
+        else if otherAlive != 0 then some s!"while the sorter was alive {otherAlive} entries existed outside the configured directory (under the other temporary directory)"
         else if newDirs + newFiles > 1 then some s!"build() created {newDirs} directories and {newFiles} files under the configured directory"
         else if taken && top > 1 then some s!"during the sort {top} new entries exist directly under the configured directory"
         else none
